@@ -28,6 +28,7 @@ class ScTrace:
     run: tuple | None = None                         # (start, returned, status, start_epoch_us, [wall_end_us])
     errors: list = field(default_factory=list)
     complete: bool = False
+    lifecycle: list = field(default_factory=list)    # ("start"|"stop", node index) in the order observed (push scenario)
     cdeltas: list = field(default_factory=list)      # (tid, id, op, key, value)  conflating-dictionary scenario
     dvalues: list = field(default_factory=list)      # (evaltime_us, steady_ts, {key: value})
 
@@ -62,6 +63,8 @@ def parse(path):
                 cur.timers.append((tk[1], int(tk[2]), int(tk[3]), int(tk[4]), tk[5]))
             elif k == "R":
                 cur.requests.append((tk[1], int(tk[2]), int(tk[3]), tk[4], int(tk[5]) if len(tk) > 5 else None))
+            elif k == "LS":
+                cur.lifecycle.append((tk[1], int(tk[2])))
             elif k == "STOP":
                 cur.stop = (int(tk[1]), int(tk[2]))
             elif k == "RUN":
